@@ -153,6 +153,20 @@ def gen_plan(prop, tier, rng, i):
                 ops.append({"op": "mw", "form": "single", "samples": [lowk], "data": _gen_sample_dict(rng, fields),
                             "scalar_sample": True})
                 model_idx.append(lowk)
+        if prop in ("C12", "C13", "C20") and len(model_idx) >= 3 and rng.random() < 0.2:
+            # back-fill: an unused index between indices written earlier (lands in a file that already exists and
+            # that older readers may have read from end to end)
+            srt = sorted(model_idx)
+            holes = [(a, b) for a, b in zip(srt, srt[1:]) if b - a > 1]
+            if holes:
+                a, b = rng.choice(holes)
+                midk = rng.choice([a + 1, b - 1, (a + b) // 2])
+                ops.append({"op": "mw", "form": "single", "samples": [midk], "data": _gen_sample_dict(rng, fields),
+                            "scalar_sample": True})
+                model_idx.append(midk)
+                # an old reader looks at once
+                ops.append({"op": "mread", "r": 0, "a": midk, "b": midk, "cols": None, "method": None})
+                ops.append({"op": "mread", "r": 0, "a": srt[0], "b": srt[-1], "cols": None, "method": None})
         idxs = _gen_indices(rng, cfg, cur, cnt, small)
         cur = idxs[-1]
         if prop == "C13" and form == "list" and cnt >= 3 and rng.random() < 0.5:
